@@ -7,7 +7,6 @@ export GOFLAGS=-mod=mod GOPROXY=off GOSUMDB=off GOTOOLCHAIN=local
 D="$1"; ID="$2"; PROP="${3:-}"
 S=/tmp/confirm-$ID
 rm -rf "$S"; cp -r /repo "$S"
-cp -r "$D/demo/." "$S/"
 cd "$S"
 # how to run the demo
 CMD=""
@@ -19,12 +18,17 @@ if [ -z "$CMD" ]; then
   CMD="go test -tags verif -vet=off -count=1 -run ^($names)\$ $pkg"
 fi
 echo "demo command: $CMD"
-timeout 1200 $CMD > /tmp/confirm-$ID.without.txt 2>&1; R0=$?
+# 1. patched tree without the demo files: build + the 65 baseline tests
 git apply --whitespace=nowarn "$D/patch.diff"; RA=$?
 go build ./internal/... ./leaves/... . > /tmp/confirm-$ID.build.txt 2>&1; RB=$?
 timeout 1500 go test -vet=off -count=1 ./internal/burndown/... ./internal/levenshtein/... ./internal/rbtree/... ./internal/toposort/... . -v 2>&1 > /tmp/confirm-$ID.tests.txt; RT=$?
 NP=$(grep -c '^--- PASS\|^    --- PASS' /tmp/confirm-$ID.tests.txt); NF=$(grep -c -- '--- FAIL' /tmp/confirm-$ID.tests.txt)
+# 2. demo with the patch
+cp -r "$D/demo/." "$S/"
 timeout 1200 $CMD > /tmp/confirm-$ID.with.txt 2>&1; R1=$?
+# 3. demo without the patch
+git apply -R --whitespace=nowarn "$D/patch.diff"
+timeout 1200 $CMD > /tmp/confirm-$ID.without.txt 2>&1; R0=$?
 echo "without-patch demo exit=$R0; apply=$RA build=$RB tests exit=$RT pass=$NP fail=$NF; with-patch demo exit=$R1"
 OK=no
 if [ $R0 -eq 0 ] && [ $RA -eq 0 ] && [ $RB -eq 0 ] && [ $RT -eq 0 ] && [ $NF -eq 0 ] && [ $R1 -ne 0 ]; then OK=yes; fi
